@@ -13,6 +13,7 @@ mod c15;
 mod c06;
 mod c11;
 mod c04;
+mod c05;
 
 pub struct Budget {
     pub end: Instant,
@@ -32,6 +33,7 @@ fn run_one(pid: &str, input: &Value) -> Option<Value> {
         "C06" => c06::run(&input),
         "C11" => c11::run(&input),
         "C04" => c04::run(&input),
+        "C05" => c05::run(&input),
         _ => None,
     });
     match r {
@@ -55,13 +57,14 @@ fn gen(pid: &str, r: &mut rng::Rng) -> Option<Value> {
         "C06" => Some(c06::gen(r)),
         "C11" => Some(c11::gen(r)),
         "C04" => Some(c04::gen(r)),
+        "C05" => Some(c05::gen(r)),
         _ => None,
     }
 }
 
 /// greedy shrinking of list-shaped inputs (keys "ops", "args", "lines", "tokens"): drop one element at a time
 fn shrink(pid: &str, mut input: Value, mut detail: Value) -> (Value, Value) {
-    for key in ["ops", "args", "lines", "tokens", "calls", "prog"] {
+    for key in ["ops", "args", "lines", "tokens", "calls", "prog", "body"] {
         if !input.get(key).map(|v| v.is_array()).unwrap_or(false) {
             continue;
         }
@@ -99,6 +102,8 @@ fn main() {
             let budget = Budget { end: Instant::now() + Duration::from_secs(secs) };
             let mut r = rng::Rng::new(seed.wrapping_mul(0x9E3779B97F4A7C15).wrapping_add(12345));
             let mut n = 0u64;
+            let mut known_hits = 0u64;
+            let skip_classes: Vec<String> = args.iter().skip(5).cloned().collect();
             while budget.left() {
                 let input = match gen(pid, &mut r) {
                     Some(v) => v,
@@ -109,12 +114,17 @@ fn main() {
                 };
                 n += 1;
                 if let Some(detail) = run_one(pid, &input) {
+                    let cls = detail.get("class").and_then(|c| c.as_str()).unwrap_or("").to_string();
+                    if !cls.is_empty() && skip_classes.contains(&cls) {
+                        known_hits += 1;
+                        continue;
+                    }
                     let (input, detail) = shrink(pid, input, detail);
                     println!("{}", json!({"found": true, "evaluations": n, "input": input, "detail": detail}));
                     return;
                 }
             }
-            println!("{}", json!({"found": false, "evaluations": n}));
+            println!("{}", json!({"found": false, "evaluations": n, "known_class_hits": known_hits}));
         }
         "run" => {
             let text = std::fs::read_to_string(&args[3]).expect("read replay file");
